@@ -16,10 +16,10 @@ echo "== suite with change (excluding demo)"
 cargo test --workspace --offline --no-fail-fast 2>&1 | grep -E "^test result|FAILED|failed" | grep -v "$DEMONAME" | sort | uniq -c > $OUT/suite_with_change.txt; cat $OUT/suite_with_change.txt
 echo "== demo with change (must fail)"
 cargo test -p $PKG --test $DEMONAME --offline 2>&1 | grep -E "^test result" | tee $OUT/demo_with_change.txt
-git stash push -q -- $(git diff --name-only)
+git apply -R $OUT/patch.diff
 echo "== demo without change (must pass)"
 cargo test -p $PKG --test $DEMONAME --offline 2>&1 | grep -E "^test result" | tee $OUT/demo_without_change.txt
-git stash pop -q
+git apply $OUT/patch.diff
 unset CARGO_TARGET_DIR
 echo "== checks against the change"
 cd /repo && git apply $OUT/patch.diff || { echo "patch does not apply to /repo"; exit 1; }
